@@ -48,7 +48,11 @@ def _shared_shapes() -> list[Any]:
     """The same recipe object at two positions is built as one shared node."""
     L = R("VLeaf", {"v": 7})
     S = R("VMany", {}, None, items=(R("VLeaf", {"v": 8}), R("VLeaf", {"v": 9})))
+    D = R("VReq", {}, None, child=R("VReq", {}, None, child=R("VLeaf", {"v": 6})))  # shared object with two levels below it
+    W = R("VMany", {}, "a", items=(R("VReq", child=R("VLeaf", {"v": 4})), R("VLeaf", {"v": 5})))
     return [
+        R("VAbAc", ab=D, ac=D),
+        R("VMixed", {"v": 2}, first=W, items=(R("VLeaf", {"v": 1}), W), one=None),
         R("VMany", items=(L, L)),
         R("VMixed", {"v": 1}, first=S, items=(S,), one=None),
         R("VMany", items=(R("VReq", child=S), S, R("VLeaf", {"v": 3}))),
@@ -287,6 +291,9 @@ def spec(tier: str, seed: int) -> Spec:
         fams.append(Family(f"shapes[{k}:{k+chunk}]", make_harness(shapes[k : k + chunk]), variables="lazy: prune/filter bit per position, bottom_up, exact_type; selector: shape, mode, gather classes"))
     po_shapes = [x for x in shapes if 3 <= recipe_size(x) <= 4][::3][:12]
     fams.append(Family("predicate-objects", make_harness(po_shapes, pred_objects=True), variables="as above; prune / filter are callable objects that are falsy in a boolean context"))
+    from models.shapes import exotic_shapes
+
+    fams.append(Family("exotic-classes", make_harness(exotic_shapes()), variables="as above; iterable / falsy / slotted / mixin classes, two tuple fields"))
     fams.append(Family("falsy-single", make_harness(_falsy_shapes()), variables="as above; trees containing a falsy node class"))
     fams.append(Family("shared-object", make_harness(_shared_shapes(), shared=True), variables="as above; one node object stored at two positions"))
     for first in ("MNamed", "MBodied", "MFunc", "MEmpty"):
